@@ -20,7 +20,14 @@ type focusInfo struct {
 }
 
 func (q *Query) focusInfo(ndecls int, funs map[string]bool) *focusInfo {
+	q.focusMu.Lock()
+	defer q.focusMu.Unlock()
+	if q.focusCached != nil {
+		return q.focusCached
+	}
+	ndecls = len(q.decls)
 	fi := &focusInfo{defs: map[string]string{}, constKey: map[string]string{}, symCache: map[string][]string{}}
+	defer func() { q.focusCached = fi }()
 	// heap consts by suffix
 	var keys []string
 	for k := range q.heapSort {
@@ -103,8 +110,19 @@ func (q *Query) focusKeep(o *Obligation, funs map[string]bool) map[int]bool {
 		if i >= o.NDecls {
 			continue
 		}
-		s := map[string]bool{}
-		fi.symbols(q.decls[i], funs, 0, map[string]bool{}, s)
+		q.focusMu.Lock()
+		s, ok := q.quantSyms[i]
+		q.focusMu.Unlock()
+		if !ok {
+			s = map[string]bool{}
+			fi.symbols(q.decls[i], funs, 0, map[string]bool{}, s)
+			q.focusMu.Lock()
+			if q.quantSyms == nil {
+				q.quantSyms = map[int]map[string]bool{}
+			}
+			q.quantSyms[i] = s
+			q.focusMu.Unlock()
+		}
 		qds = append(qds, qd{i, s})
 	}
 	keep := map[int]bool{}
